@@ -167,6 +167,7 @@ type Thread struct {
 	done    bool
 	name    string
 	panicV  *PanicInfo
+	vc      VC              // happens-before clock (hbrace mode)
 	noPre   ssa.Instruction // the sync operation this thread resumes with (no second preemption there)
 }
 
@@ -232,6 +233,9 @@ type State struct {
 	jsGlobals map[string]Value
 	steps     int64
 	selForks  int
+	hbShadow  map[hbLoc]*hbCell // happens-before shadow memory (hbrace mode), copy-on-write
+	hbSync    map[string]VC
+	hbOwned   bool
 	preemptOn bool // inside a vsymPreemptWindow
 	preempts  int // context switches forced at synchronisation points (bounded by param preempt)
 	writes    []*StrV
@@ -264,6 +268,8 @@ func (s *State) fork() *State {
 		selForks:  s.selForks,
 		preempts:  s.preempts,
 		preemptOn: s.preemptOn,
+		hbShadow:  s.hbShadow,
+		hbSync:    s.hbSync,
 		access:    append([]AccessRec(nil), s.access...),
 		writes:    append([]*StrV(nil), s.writes...),
 	}
@@ -278,9 +284,10 @@ func (s *State) fork() *State {
 	n.lastSec, n.lastNsec, n.fresh = s.lastSec, s.lastNsec, s.fresh
 	n.dom, n.linked, n.wide, n.domOwned = s.dom, s.linked, s.wide, false
 	s.domOwned = false
+	s.hbOwned = false
 	n.threads = make([]*Thread, len(s.threads))
 	for i, t := range s.threads {
-		nt := &Thread{blocked: t.blocked, done: t.done, name: t.name, panicV: t.panicV, noPre: t.noPre}
+		nt := &Thread{blocked: t.blocked, done: t.done, name: t.name, panicV: t.panicV, noPre: t.noPre, vc: t.vc}
 		nt.frames = make([]*Frame, len(t.frames))
 		for j, f := range t.frames {
 			nt.frames[j] = f.clone()
